@@ -141,7 +141,8 @@ class Monitor:
                 return self.reduce(clause, side, sdi, sw)
         return di, w
 
-    def run_case(self, di, w):
+    def run_case(self, di, w, lone=False):
+        """lone: the value contains a lone surrogate - outside the reference model, only the round trips are judged"""
         r = self.r
         B = self.B
         feats = features(di, w)
@@ -194,6 +195,8 @@ class Monitor:
             r.count('oracle_wire_kind')
             if not judged_scaled:
                 r.count('not_judged_scaled_far')
+            elif lone:
+                r.count('not_judged_by_reference_model_lone_surrogate')
             elif not refdt.member(di, e2, partial_ok=True) or not refdt.same_wire(di, w, e2):
                 case['exported'] = e2
                 self.viol('wrong-wire-form', side, di, feats, case)
@@ -268,6 +271,17 @@ def run_shard(shard):
             w = json.loads(json.dumps(w))
             mon.run_case(di, w)
             n += 1
+            if rng.random() < 0.1:
+                # strings with a lone surrogate code point: not well-formed Unicode, but where the datatype accepts such a
+                # value it has to survive export, frame codec and import like any other
+                ws, ok = gen_dt.with_lone_surrogate(di, w, rng)
+                if ok:
+                    try:
+                        mon.B.build(di)(gen_dt.to_py(di, ws))
+                    except Exception:
+                        continue
+                    r.count('accepted_values_with_lone_surrogate')
+                    mon.run_case(di, ws, lone=True)
     return r.result()
 
 
